@@ -1068,5 +1068,199 @@ theorem valid_of_validb (F : Fns α) (e : Bool) (ops : List (Op α))
     (h : validb F (State.init α e) ops = true) : Valid F e ops :=
   validFrom_of_validb F ops _ h
 
+
+/-! ### the ExtInt-only views are the user columns of `H` / `big_H` -/
+
+theorem getD2_map_take (H : MoM α) {u k l : Nat} (hl : l < u) :
+    getD2 (H.map fun r => r.take u) k l = getD2 H k l := by
+  unfold getD2
+  cases hk : H[k]? with
+  | none => simp [hk]
+  | some row => simp [hk, List.getElem?_take_of_lt hl]
+
+theorem slice_take {β : Type} (l : List β) {a b c : Nat} (h : b ≤ c) :
+    slice (l.take c) a b = slice l a b := by
+  unfold slice
+  rw [List.drop_take, List.take_take]
+  congr 1
+  omega
+
+theorem cum_mono (ns : List Nat) {i j : Nat} (h : i ≤ j) : cum ns i ≤ cum ns j := by
+  unfold cum
+  induction ns generalizing i j with
+  | nil => simp
+  | cons n ns ih =>
+    cases i with
+    | zero => simp
+    | succ i =>
+      cases j with
+      | zero => omega
+      | succ j =>
+        simp only [List.take_succ_cons, List.sum_cons]
+        have := ih (i := i) (j := j) (by omega)
+        omega
+
+theorem ntU_prefix (st : State α) (hw : WellShaped st) (hK : 0 < st.userK) :
+    st.ntU = st.nt.take st.userK := by
+  unfold State.ntU State.userK at *
+  split
+  · rename_i he
+    simp only [he, if_true] at hK
+    have hpos : 1 ≤ st.extK := by
+      rcases hw.ext_pos he with h0 | h1
+      · omega
+      · exact h1
+    unfold pyDropLast
+    rw [if_neg (by omega), hw.nt_len]
+  · rw [← hw.nt_len]; simp
+
+/-- a user block of `big_H_no_ext_int` is the same block of `big_H` -/
+theorem block_takeCols (M : Mat α) (st : State α) (hw : WellShaped st) {k l : Nat} (hl : l < st.userK) :
+    block (takeCols M st.ntU.sum) st.nr st.nt k l = block M st.nr st.nt k l := by
+  have hsum : st.ntU.sum = cum st.nt st.userK := by rw [ntU_prefix st hw (by omega)]; rfl
+  unfold block colBlock rowBlock takeCols
+  rw [seg_map, List.map_map]
+  apply List.map_congr_left
+  intro r _
+  simp only [Function.comp, seg]
+  rw [hsum]
+  exact slice_take r (cum_mono st.nt (by omega))
+
+/-! ### what the mutators store -/
+
+theorem install_fields (st : State α) (M : Mat α) (nr nt : List Nat) (K : Nat) :
+    let st' := install Cfg.fixed st M nr nt K
+    st'.raw = M ∧ st'.nr = nr ∧ st'.nt = nt ∧ st'.k = K ∧ st'.extK = st.extK ∧ st'.w = st.w
+    ∧ st'.noiseVar = st.noiseVar
+    ∧ st'.pl = (match st.pl with
+        | none => none
+        | some p => if plFits p (if st.isExt then K - st.extK else K) K then some p else none) := by
+  simp only [install, Cfg.fixed, if_true]
+  cases hp : st.pl with
+  | none => simp
+  | some p =>
+    simp only [State.userK]
+    by_cases he : st.isExt = true
+    · simp only [he, if_true]
+      by_cases hf : plFits p (K - st.extK) K = true <;> simp [hf]
+    · simp only [he, if_false]
+      by_cases hf : plFits p K K = true <;> simp [hf]
+
+theorem init_eq_randomize (F : Fns α) (st : State α) (M : Mat α) (nr nt : List Nat) (K : Nat) (ntE : List Nat)
+    (h : initCheck M (fullLayout st.isExt nr nt K ntE).1 (fullLayout st.isExt nr nt K ntE).2.1
+      (fullLayout st.isExt nr nt K ntE).2.2.1 = true) :
+    step Cfg.fixed F st (.init M nr nt K ntE) = step Cfg.fixed F st (.randomize M nr nt K ntE) := by
+  simp [step, doInit, doRandomize, h]
+
 end Machine
+
+/-! ### `block_diag` really is block diagonal -/
+
+section BD
+variable {α : Type} {β γ : Type}
+
+theorem cum_length (ns : List Nat) : cum ns ns.length = ns.sum := by simp [cum]
+
+theorem cum_le_sum (ns : List Nat) (k : Nat) : cum ns k ≤ ns.sum := by
+  by_cases h : k ≤ ns.length
+  · rw [← cum_length]; exact cum_mono ns h
+  · simp [cum, List.take_of_length_le (by omega : ns.length ≤ k)]
+
+/-- the k-th chunk of a concatenation, cut at the cumulative chunk lengths -/
+theorem seg_flatMap (L : List γ) (g : γ → List β) {k : Nat} {x : γ} (hx : L[k]? = some x) :
+    seg (L.map fun y => (g y).length) (L.flatMap g) k = g x := by
+  induction L generalizing k with
+  | nil => simp at hx
+  | cons y L ih =>
+    cases k with
+    | zero =>
+      simp at hx; subst hx
+      simp [seg, slice, cum]
+    | succ k =>
+      simp at hx
+      simp only [List.map_cons, List.flatMap_cons]
+      rw [seg_cons_succ _ _ _ _ _ rfl]
+      exact ih hx
+
+variable [Zero α]
+
+theorem slice_zeros_mid_left (n : Nat) (r t : List α) {a b : Nat} (hab : a ≤ b) (hb : b ≤ n) :
+    slice (List.replicate n (0 : α) ++ r ++ t) a b = List.replicate (b - a) 0 := by
+  unfold slice
+  rw [List.append_assoc, List.drop_append, List.take_append]
+  simp only [List.drop_replicate, List.take_replicate, List.length_replicate]
+  have h1 : b - a - (n - a) = 0 := by omega
+  have h2 : min (b - a) (n - a) = b - a := by omega
+  rw [h1, h2]; simp
+
+theorem slice_mid (n : Nat) (r t : List α) :
+    slice (List.replicate n (0 : α) ++ r ++ t) n (n + r.length) = r := by
+  unfold slice
+  rw [List.append_assoc, List.drop_append]
+  simp
+
+theorem slice_zeros_right (n m : Nat) (r : List α) {a b : Nat} (ha : n + r.length ≤ a) (hab : a ≤ b)
+    (hb : b ≤ n + r.length + m) :
+    slice (List.replicate n (0 : α) ++ r ++ List.replicate m 0) a b = List.replicate (b - a) 0 := by
+  unfold slice
+  rw [List.drop_append]
+  have : List.drop a (List.replicate n (0 : α) ++ r) = [] := by
+    apply List.drop_eq_nil_of_le; simp; omega
+  rw [this]
+  simp
+  omega
+
+
+/-- `block_diag`: the (k,l) block of the block-diagonal matrix of rectangular blocks `ws`
+    (cut at the blocks' own row / column counts) is `ws[k]` on the diagonal and zero elsewhere -/
+theorem block_blockDiag (ws : List (Mat α)) (hrect : ∀ w ∈ ws, ∀ r ∈ w, r.length = cols w)
+    {k l : Nat} {w : Mat α} {cl : Nat} (hk : ws[k]? = some w) (hl : (ws.map cols)[l]? = some cl) :
+    block (blockDiag ws) (ws.map List.length) (ws.map cols) k l
+      = if k = l then w else List.replicate w.length (List.replicate cl 0) := by
+  have hck : (ws.map cols)[k]? = some (cols w) := by simp [hk]
+  have hwm : w ∈ ws := List.mem_of_getElem? hk
+  let g : Mat α × Nat → Mat α := fun wk =>
+    wk.1.map fun r => List.replicate (cum (ws.map cols) wk.2) 0 ++ r
+      ++ List.replicate ((ws.map cols).sum - cum (ws.map cols) (wk.2 + 1)) 0
+  have hbd : blockDiag ws = ws.zipIdx.flatMap g := rfl
+  have hrs : ws.map List.length = ws.zipIdx.map fun y => (g y).length := by
+    apply List.ext_getElem?
+    intro i
+    simp [g, List.getElem?_zipIdx]
+    cases ws[i]? <;> simp
+  have hz : ws.zipIdx[k]? = some (w, k) := by simp [List.getElem?_zipIdx, hk]
+  unfold block rowBlock colBlock
+  rw [hbd, hrs, seg_flatMap _ g hz]
+  simp only [g, List.map_map]
+  have hsucc := cum_succ hck
+  have hlsucc := cum_succ hl
+  by_cases hkl : k = l
+  · subst hkl
+    rw [if_pos rfl]
+    conv => rhs; rw [← List.map_id w]
+    apply List.map_congr_left
+    intro r hr
+    have hlen := hrect w hwm r hr
+    simp only [Function.comp, seg, id]
+    rw [hsucc, ← hlen]
+    exact slice_mid _ r _
+  · rw [if_neg hkl]
+    rw [← List.map_const']
+    apply List.map_congr_left
+    intro r hr
+    have hlen := hrect w hwm r hr
+    simp only [Function.comp, seg]
+    rcases Nat.lt_or_gt_of_ne hkl with h | h
+    · -- k < l : right of the block
+      have h1 : cum (ws.map cols) (k + 1) ≤ cum (ws.map cols) l := cum_mono _ h
+      have h2 := cum_le_sum (ws.map cols) (l + 1)
+      have h3 := cum_le_sum (ws.map cols) (k + 1)
+      rw [slice_zeros_right _ _ r (by omega) (by omega) (by omega)]
+      congr 1; omega
+    · -- l < k : left of the block
+      have h1 : cum (ws.map cols) (l + 1) ≤ cum (ws.map cols) k := cum_mono _ h
+      rw [slice_zeros_mid_left _ r _ (by omega) h1]
+      congr 1; omega
+
+end BD
 end PyPhysim.C08
